@@ -20,20 +20,41 @@ PARSERS = {
 
 def assigns_default_elsewhere(mod, cls, allowed):
     """side condition of the stub: no function of the parser module other than `allowed` assigns
-    namespace_manager.default (so the stubbed construct parsers cannot change it themselves)"""
+    namespace_manager.default (so the stubbed construct parsers cannot change it themselves).  A helper that is
+    called ONLY from the allowed functions is interpreted together with them and may assign it."""
     tree = ast.parse(inspect.getsource(mod))
+    funcs = [n for n in ast.walk(tree) if isinstance(n, ast.FunctionDef)]
+
+    def callee_name(c):
+        f = c.func
+        return f.id if isinstance(f, ast.Name) else (f.attr if isinstance(f, ast.Attribute) else None)
+    callers = {}
+    for fn in funcs:
+        for sub in ast.walk(fn):
+            if isinstance(sub, ast.Call) and callee_name(sub):
+                callers.setdefault(callee_name(sub), set()).add(fn.name)
+    allowed = set(allowed)
+    changed = True
+    while changed:
+        changed = False
+        for fn in funcs:
+            if fn.name not in allowed and callers.get(fn.name) and callers[fn.name] <= allowed:
+                allowed.add(fn.name)
+                changed = True
     bad = []
-    for node in ast.walk(tree):
-        if isinstance(node, (ast.FunctionDef,)):
-            for sub in ast.walk(node):
-                tgts = []
-                if isinstance(sub, ast.Assign):
-                    tgts = sub.targets
-                elif isinstance(sub, (ast.AugAssign, ast.AnnAssign)):
-                    tgts = [sub.target]
-                for t in tgts:
-                    if isinstance(t, ast.Attribute) and t.attr == "default" and node.name not in allowed:
-                        bad.append("%s:%d" % (node.name, sub.lineno))
+    for node in funcs:
+        for sub in ast.walk(node):
+            tgts = []
+            if isinstance(sub, ast.Assign):
+                tgts = sub.targets
+            elif isinstance(sub, (ast.AugAssign, ast.AnnAssign)):
+                tgts = [sub.target]
+            for t in tgts:
+                if isinstance(t, ast.Attribute) and t.attr == "default" and node.name not in allowed:
+                    bad.append("%s:%d" % (node.name, sub.lineno))
+            if isinstance(sub, ast.Call) and callee_name(sub) == "setattr" and node.name not in allowed and \
+                    len(sub.args) >= 2 and isinstance(sub.args[1], ast.Constant) and sub.args[1].value == "default":
+                bad.append("%s:%d" % (node.name, sub.lineno))
     return bad
 
 
